@@ -29,6 +29,11 @@ Example filter_sender_shape_is :
 Proof. reflexivity. Qed.
 Example response_cap_is : response_cap = 1000. Proof. reflexivity. Qed.
 
+(** The life-cycle below has no reassignment step: Keeper.ReassignOrphanedMessages (which would keep
+    the previous assignee's fees) has no production caller.  The translator lists the callers. *)
+Lemma reassign_not_reachable : Gen.C14.reassign_production_callers = [].
+Proof. reflexivity. Qed.
+
 (** ---- store order ---- *)
 Definition id_lt (a b : qmsg) : Prop := mid a < mid b.
 Definition sorted (q : list qmsg) : Prop := StronglySorted id_lt q.
